@@ -6,3 +6,15 @@ from .data import *
 from .encrypt import *
 from .packet import *
 from .protocol import *
+
+# The star imports above also copy same-named submodule attributes of other packages
+# (e.g. the generated twins); make sure this package's own subpackages are what the
+# attributes resolve to.
+import sys as _sys
+
+data = _sys.modules[__name__ + '.data']
+encrypt = _sys.modules[__name__ + '.encrypt']
+packet = _sys.modules[__name__ + '.packet']
+protocol = _sys.modules[__name__ + '.protocol']
+
+del _sys
